@@ -55,7 +55,8 @@ func c03Proxy(c *Ctx, r *Report) {
 			return v
 		}
 		sc := &Scenario{Name: "two-upstreams", MaxVisit: 6, InlineGo: true,
-			Params: map[string]SV{"recv": symRef("h", false), "p0": symRef("down", false), "p1": symSlice("ups", 2)},
+			Params: map[string]SV{"recv": symRef("h", false)},
+			ByType: map[string]SV{"layer4.Connection": symRef("down", false), "[]net.Conn": symSlice("ups", 2)},
 			Heap:   map[string]SV{"ups[0]": kind("up0", caps[1]), "ups[1]": kind("up1", caps[2]), "down.Conn": kind("down.Conn", caps[0])},
 			Inline: func(f *ssa.Function) bool { return f.Parent() != nil && fname(f.Parent()) == fnName },
 		}
@@ -247,7 +248,8 @@ func c03Dial(c *Ctx, r *Report, rule string, headers bool) {
 			}
 			name := fmt.Sprintf("version=%d,tls=%v", ver, tlsOn)
 			sc := &Scenario{Name: name, MaxVisit: 6, MaxPaths: 50000,
-				Params: map[string]SV{"recv": symRef("h", false), "p0": symRef("upstream", false), "p1": symRef("repl", false), "p2": symRef("down", false)},
+				Params: map[string]SV{"recv": symRef("h", false)},
+				ByType: map[string]SV{"l4proxy.Upstream": symRef("upstream", false), "caddy/v2.Replacer": symRef("repl", false), "layer4.Connection": symRef("down", false)},
 				Heap:   map[string]SV{"upstream.peers": symSlice("peers", 2), "h.proxyProtocolVersion": symInt(ver), "upstream.TLS": symNil()},
 			}
 			if tlsOn {
